@@ -6,8 +6,10 @@ Model: `Pithos.Model.Http.SigV4` (`serverCanon` = `generateCanonicalRequest` of 
 Statements are for *every* request in the image of the S3 client + HTTP transport (`SdkShaped`):
 all byte strings as keys, all query multisets, all header lists — no bound.
 
-The code as it is deviates in two places (both replayed on the implementation by the harness):
- * runs of spaces inside a signed header value are not collapsed (fixes/C29-collapse-header-spaces.patch);
+Deviations found (both replayed on the implementation by the harness):
+ * runs of spaces inside a signed header value were not collapsed — repaired in /repo e6080ab
+   (fixes/C29-collapse-header-spaces.patch); the current tree is `Fix.patched`, `Fix.asIs` is the
+   tree before that commit;
  * the canonical query is ordered by percent-encoded key/value, the Go SDK orders by decoded
    key/value (recorded as a known finding; no patch proposed).
 -/
@@ -139,7 +141,7 @@ theorem canonical_eq_sdk (c : Crypto) (r : Req) (S : List Bytes) (presigned : Bo
   unfold canonicalRequest
   rw [serverCanon_eq_sdkCanon c Fix.ideal r S presigned h (Or.inl rfl) (Or.inl rfl)]
 
-/-- **canonical_eq_sdk_patched**: after fixes/C29-collapse-header-spaces.patch only the query order
+/-- **canonical_eq_sdk_patched** (the current tree, /repo e6080ab and later): only the query order
 remains as a side condition. -/
 theorem canonical_eq_sdk_patched (c : Crypto) (r : Req) (S : List Bytes) (presigned : Bool)
     (h : SdkShaped c r presigned) (ho : encOrderAgrees (signedQuery r.query) = true) :
@@ -147,7 +149,7 @@ theorem canonical_eq_sdk_patched (c : Crypto) (r : Req) (S : List Bytes) (presig
   unfold canonicalRequest
   rw [serverCanon_eq_sdkCanon c Fix.patched r S presigned h (Or.inl rfl) (Or.inr ho)]
 
-/-- **canonical_eq_sdk_partial** (the code as it is): equality holds when no signed header value
+/-- **canonical_eq_sdk_partial** (the tree before e6080ab): equality holds when no signed header value
 contains a run of spaces and the two query orders agree. -/
 theorem canonical_eq_sdk_partial (c : Crypto) (r : Req) (S : List Bytes) (presigned : Bool)
     (h : SdkShaped c r presigned)
@@ -183,7 +185,30 @@ theorem sdk_signed_accepted (c : Crypto) (cfg : Config) (r : Req) (p : SigParams
   accepted_of_canonical_eq c Fix.ideal cfg r p ak secret date t hp halg hcred hak hdt hrg hkey hts hdate hwin hhost
     hsens (canonical_eq_sdk c r _ p.presigned hshape) hstream hsig
 
-/-- **sdk_signed_accepted_partial** (the code as it is): the same, when no signed header value
+/-- **sdk_signed_accepted_patched** (the current tree): the same, when the two query orders agree. -/
+theorem sdk_signed_accepted_patched (c : Crypto) (cfg : Config) (r : Req) (p : SigParams)
+    (ak secret date : Bytes) (t : Int)
+    (hp : parseSigParams r = .ok p) (halg : p.alg = algV4)
+    (hcred : p.credential = join [47] [ak, date, cfg.region, b! "s3", b! "aws4_request"])
+    (hak : (47 : UInt8) ∉ ak) (hdt : (47 : UInt8) ∉ date) (hrg : (47 : UInt8) ∉ cfg.region)
+    (hkey : cfg.creds.find? (fun k => k.accessKey == ak) = some ⟨ak, secret⟩)
+    (hts : parseTimestamp p.timestamp = some t) (hdate : date = p.timestamp.take 8)
+    (hwin : t - 900 ≤ cfg.now ∧ cfg.now ≤ t + (p.expires : Int))
+    (hhost : (parseSignedHeaders p.signedHeaders).contains hostKey = true)
+    (hsens : ∀ h ∈ r.headers, mustBeSigned (lower h.1) = true →
+      (parseSignedHeaders p.signedHeaders).contains (lower h.1) = true)
+    (hshape : SdkShaped c r p.presigned)
+    (horder : encOrderAgrees (signedQuery r.query) = true)
+    (hstream : ¬ (headerGet r contentSHA256Header = streamingECDSA ∨ headerGet r contentSHA256Header = streamingECDSATrailer))
+    (hsig : p.signature = sdkSignature c secret date cfg.region p.timestamp r (parseSignedHeaders p.signedHeaders) p.presigned) :
+    checkAuth c Fix.patched cfg r =
+      .ok { accessKey := ak, params := p,
+            scope := join [47] [date, cfg.region, b! "s3", b! "aws4_request"],
+            signed := parseSignedHeaders p.signedHeaders } :=
+  accepted_of_canonical_eq c Fix.patched cfg r p ak secret date t hp halg hcred hak hdt hrg hkey hts hdate hwin hhost
+    hsens (canonical_eq_sdk_patched c r _ p.presigned hshape horder) hstream hsig
+
+/-- **sdk_signed_accepted_partial** (the tree before e6080ab): the same, when no signed header value
 contains a run of spaces and the two query orders agree. -/
 theorem sdk_signed_accepted_partial (c : Crypto) (cfg : Config) (r : Req) (p : SigParams)
     (ak secret date : Bytes) (t : Int)
